@@ -1107,6 +1107,7 @@ class Interp:
         if isinstance(v, VObj):
             key = (v.oid, attr)
             if key in st.heap:
+                self._field_inv(key, st.heap[key], v.cls, attr)
                 return st.heap[key]
             cls = v.cls
             if isinstance(cls, type):
@@ -1143,6 +1144,7 @@ class Interp:
                         o.lists[val.oid] = st.lists[val.oid].copy()
             if self.live_heap is not None and key not in self.live_heap:
                 self.live_heap[key] = val
+            self._field_inv(key, val, cls, attr)
             return val
         if isinstance(v, VTuple) and v.names and attr in v.names:
             return v.items[v.names.index(attr)]
@@ -1206,6 +1208,25 @@ class Interp:
         if self.st.spec and isinstance(v, VOpaque):
             return VOpaque("attribute of an undefined value in a specification")
         raise Unsupported(f"attribute {attr} of {v!r}")
+
+    def _field_inv(self, key, val, cls, attr):
+        """Structure invariants (Contract.field_invariants): assumed once per object, the first time
+        the field is read by the code (not while a clause is evaluated: the clause of one token reads
+        the next one)."""
+        st = self.st
+        fi = getattr(self.contract, "field_invariants", None) if self.contract else None
+        if not fi or st.spec or not isinstance(val, VObj) or not isinstance(cls, type):
+            return
+        done = st.ghost.setdefault(("field_inv_done",), set())
+        if key in done or val.oid in self.fresh_objs:
+            return
+        done.add(key)
+        for k in cls.__mro__:
+            for clause in fi.get(f"{k.__name__}.{attr}", ()):
+                self.assumptions.add(f"structure invariant assumed when {k.__name__}.{attr} "
+                                     f"is read: {clause}")
+                ref0 = self.frames[-1].get("ref") if self.frames else None
+                self.assume(self.spec_eval(clause, dict(st.env, v=val), ref0 or self.fnref))
 
     def setattr(self, v, attr, val, node):
         if isinstance(v, VObj):
@@ -1785,7 +1806,15 @@ class Interp:
             if "result" in env2:
                 env2["arg_result"] = env2["result"]
             env2["result"] = res
+            import re as _re
             for clause in c.ensures:
+                m = _re.match(r"^self\.(\w+) is (\w+)$", clause.strip())
+                if m and not st.spec and isinstance(env.get("self"), VObj) \
+                        and isinstance(env.get(m.group(2)), (VObj, VList)):
+                    # `self.f is param` binds the field to the argument object itself (an identity
+                    # between two separately materialised objects could not be assumed)
+                    st.heap[(env["self"].oid, m.group(1))] = env[m.group(2)]
+                    continue
                 self.assume(self.spec_eval(clause, env2, ref, old=old))
             for clause in getattr(c, "assumed_ensures", ()):
                 self.world.trusted_used.add(f"assumed (not proved) about {ref.qual}: {clause}")
@@ -2408,7 +2437,24 @@ class Interp:
         if lc is None:
             self.assumptions.add(f"loop {ordinal} of {ref.qual}: no invariant supplied (havoc only)")
         self.check_invariants(lc, "INV-INIT", ordinal, ref)
-        mode = self.choose(2, f"loop {ordinal}")
+        peel = bool(lc and lc.get("peel"))
+        mode = self.choose(3 if peel else 2, f"loop {ordinal}")
+        if mode == 2:
+            # peeled first iteration: the body runs from the state in which the loop is reached
+            # (no havoc), so aliases between the loop variables and the rest of the heap are exact;
+            # the invariants must hold after it
+            c = self.truth(self.ev(node.test))
+            self.assume(c)
+            if not self.feasible():
+                raise _PathEnd()
+            try:
+                self.exec_block(node.body)
+            except _Break:
+                return
+            except _Continue:
+                pass
+            self.check_invariants(lc, "INV-PRES", ordinal, ref)
+            raise _PathEnd()
         self.havoc_loop(node)
         self.assume_invariants(lc, ref)
         if not self.feasible():
